@@ -34,7 +34,7 @@ CASE_TIMEOUT = 30
 
 
 def budget(tier):
-    return {"examples": 24000 if tier == "quick" else 600000}
+    return {"examples": 24000 if tier == "quick" else 600000, "fuzz_runs": 0 if tier == "quick" else 200000}
 
 
 MAGNET_ATTRS = ["polarization", "magnetization"]
